@@ -67,7 +67,7 @@ BOUNDS = {
         "nodes": {"fragvars": 10, "sdl": 8},
         "single_gap_layouts_up_to_nodes": {"fragvars": 9, "sdl": 7},
         "depth": 4,
-        "seeds": 19,
+        "seeds": 20,
         "all_layouts_max_gaps": 5,
         "pair_layouts_max_tokens": 7,
         "quoted_body_len": 7,
@@ -268,7 +268,7 @@ class Prepared(object):
     def __init__(self, dialect, n, d, i, seed):
         self.dialect, self.n, self.d, self.i, self.seed = dialect, n, d, i, seed
         self.term = T.unrank(dialect, n, d, i)
-        self.tokens, self.tree = T.realize(self.term, seed)
+        self.tokens, self.tree = T.realize(self.term, T.leaf_seed(i, seed))
         self.uses_fragvars = _uses_fragvars(self.tree)
 
     def witness(self, gaps, flags, mode):
@@ -362,8 +362,15 @@ def explore_tree(dialect, n, d, i, b, st):
     fsets = _flag_sets(dialect, p.uses_fragvars)
     base_flags = fsets[-1]
 
+    dirty = set()
+
     def run(pp, gaps, flags, mode="compare"):
+        key = (pp.seed, tuple(gaps))
+        if mode == "spans" and key in dirty:
+            return []  # the tree itself is already reported for this configuration
         res = compare(pp, gaps, flags, st) if mode == "compare" else compare_spans(pp, gaps, flags, st)
+        if res:
+            dirty.add(key)
         for cls, detail in res:
             out.append((cls, pp.witness(gaps, flags, mode), detail))
         return res
